@@ -22,19 +22,21 @@ Open Scope N_scope.
 Inductive item :=
   | IHead (close body : bool)   (* a complete request head; close = msg.should_close; body = payload stream still open *)
   | IBodyEnd                    (* the body of the last head is complete (payload.feed_eof) *)
-  | IBad.                       (* HttpProcessingError raised at this point of the stream *)
+  | IBad (sticky : bool).       (* HttpProcessingError raised at this point of the stream; sticky = raised after the
+                                   unparsable rest was stored back into _tail (bare LF / over-long partial line), so every
+                                   later feed_data call meets it again *)
 
 Record msg := { m_id : N; m_close : bool; m_body : bool }.
 
 (* items once they arrived: heads numbered in arrival order *)
-Inductive titem := THead (m : msg) | TBodyEnd | TBad.
+Inductive titem := THead (m : msg) | TBodyEnd | TBad (sticky : bool).
 
 Fixpoint tag (n : N) (its : list item) : list titem * N :=
   match its with
   | [] => ([], n)
   | IHead c b :: r => let '(l, n') := tag (n + 1) r in (THead {| m_id := n; m_close := c; m_body := b |} :: l, n')
   | IBodyEnd :: r => let '(l, n') := tag n r in (TBodyEnd :: l, n')
-  | IBad :: r => let '(l, n') := tag n r in (TBad :: l, n')
+  | IBad k :: r => let '(l, n') := tag n r in (TBad k :: l, n')
   end.
 
 Inductive qitem := QMsg (m : msg) | QErr.      (* RequestHandler._messages entries: RawRequestMessage | _ErrInfo *)
@@ -60,18 +62,18 @@ Fixpoint ploop (its : list titem) (infl : N) (b : bstate) (acc : list qitem) : p
         else match it with
              | THead m => ploop r (infl + 1) (if m_body m then BOpen (m_id m) else BNone) (QMsg m :: acc)
              | TBodyEnd => ploop r infl b acc
-             | TBad => (PErr, {| p_tail := []; p_infl := infl; p_body := b |})
+             | TBad sticky => (PErr, {| p_tail := if sticky then its else []; p_infl := infl; p_body := b |})
              end
     | BOpen bid =>
         match it with
         | TBodyEnd => ploop r infl BNone acc
-        | TBad => (PErr, {| p_tail := []; p_infl := infl; p_body := BFail bid |})
+        | TBad _ => (PErr, {| p_tail := []; p_infl := infl; p_body := BFail bid |})
         | THead _ => ploop r infl b acc            (* cannot occur in a well-formed stream: bytes inside a body *)
         end
     | BFail bid =>                                  (* payload parser left in place after its error *)
         match it with
         | TBodyEnd => ploop r infl BNone acc
-        | TBad => (PErr, {| p_tail := []; p_infl := infl; p_body := b |})
+        | TBad _ => (PErr, {| p_tail := []; p_infl := infl; p_body := b |})
         | THead _ => ploop r infl b acc
         end
     end
@@ -179,7 +181,8 @@ Definition payload_check (c : cfg) (s : st) (cur : qitem) : st :=
   | QErr => after_req c s false
   | QMsg m =>
       if incomplete s m then
-        if failed s m then exit_loop (do_close s)                 (* readany() raises -> except Exception: force_close() *)
+        if forcef s then after_req c s false                        (* no lingering, no close(): the loop just ends *)
+        else if failed s m then exit_loop (do_close s)              (* readany() raises -> except Exception: force_close() *)
         else if 0 <? c_linger c then set_pc s (PLinger m (now s + c_linger c))
         else after_req c s true                                     (* self.close() *)
       else after_req c s false
@@ -221,10 +224,10 @@ Definition on_done (c : cfg) (s : st) (cur : qitem) (started : bool) (o : outcom
         if closed s then exit_loop (push s (partial_of cur))
         else payload_check c (set_ka (push s {| r_id := id_of cur; r_status := 200; r_done := true |}) (negb (close_of cur))) cur
       else (* not started: same as a swallowed prepare *)
-        if closed s then exit_loop s else payload_check c (set_ka s (negb (close_of cur))) cur
+        payload_check c (set_ka s (negb (close_of cur))) cur
   | OSwallow =>
-      if closed s then exit_loop (if started then push s (partial_of cur) else s)
-      else payload_check c (set_ka (if started then push s (partial_of cur) else s) (negb (close_of cur))) cur
+      (* prepare() is a no-op (writer already taken), write_eof() writes nothing: no error even on a dead transport *)
+      payload_check c (set_ka (if started then push s (partial_of cur) else s) (negb (close_of cur))) cur
   end.
 
 (* ---- timers ----------------------------------------------------------------------------------- *)
@@ -246,7 +249,7 @@ Definition fire_ka (s : st) : st :=          (* _process_keepalive, if its handl
 Definition fire_linger (c : cfg) (s : st) : st :=
   match pc s with
   | PLinger m until =>
-      if until <=? now s then after_req c s (negb (forcef s))     (* still incomplete: self.close() unless force-closed *)
+      if until <=? now s then after_req c s (incomplete s m && negb (forcef s))   (* still incomplete: self.close() unless force-closed *)
       else s
   | _ => s
   end.
@@ -256,24 +259,34 @@ Inductive ev :=
   | EData (its : list item)   (* transport delivers a read (only while reading is not paused) *)
   | EStart                    (* the running handler starts a streamed response: head written *)
   | EDone (o : outcome)       (* the running handler ends *)
+  | EReparse                  (* BaseProtocol.resume_reading(): a body read drained the StreamReader -> data_received(b"") *)
+  | EWake                     (* the lingering payload.readany() returned (data, eof or the parser's exception) *)
   | ETick (dt : N)            (* the clock advances by dt; due timers run *)
   | EPeerClose.               (* connection_lost *)
+
+(* data_received(data) and what the start() task does when that wakes it *)
+Definition deliver (s : st) (tits : list titem) : st :=
+  let '(s1, woke) := feed s tits in
+  match pc s1 with
+  | PWait => if woke then loop_top s1 else s1
+  | _ => s1
+  end.
 
 Definition step (c : cfg) (s : st) (e : ev) : option st :=
   match e with
   | EData its =>
       if closed s || paused s then None
-      else
-        let '(tits, n') := tag (nseen s) its in
-        let '(s1, woke) := feed (set_nseen s n') tits in
-        Some match pc s1 with
-             | PWait => if woke then loop_top s1 else s1
-             | PLinger m until =>
-                 if incomplete s1 m then
-                   if failed s1 m then exit_loop (do_close s1) else s1
-                 else after_req c s1 false
-             | _ => s1
-             end
+      else let '(tits, n') := tag (nseen s) its in Some (deliver (set_nseen s n') tits)
+  | EReparse => Some (if closed s then s else deliver s [])
+  | EWake =>
+      Some match pc s with
+           | PLinger m until =>
+               if incomplete s m then
+                 if forcef s then s
+                 else if failed s m then exit_loop (do_close s) else s
+               else after_req c s false
+           | _ => s
+           end
   | EStart =>
       match pc s with
       | PHandler cur false => if closed s then None else Some (set_pc s (PHandler cur true))
